@@ -844,12 +844,17 @@ def _get_charno(source: str, lineno: int, col_offset: int) -> int:
     """
     line_start_charnos = _get_line_start_charnos(source)
     lines = split_lines(source)
-    line = lines[lineno - 1] if lineno <= len(lines) else ""
-    if line.isascii():
-        return line_start_charnos[lineno - 1] + col_offset
+    if lineno > len(lines):
+        return len(source)  # After the last line, where something may be inserted
 
-    character_offset = len(line.encode("utf-8")[:col_offset].decode("utf-8", errors="ignore"))
-    return line_start_charnos[lineno - 1] + character_offset
+    line = lines[lineno - 1]
+    if line.isascii():
+        character_offset = col_offset
+    else:
+        character_offset = len(line.encode("utf-8")[:col_offset].decode("utf-8", errors="ignore"))
+
+    # The position of a new statement may be on a blank line, which has fewer columns than that
+    return line_start_charnos[lineno - 1] + min(character_offset, len(line.rstrip("\r\n")))
 
 
 class Range(NamedTuple):
